@@ -92,6 +92,10 @@ def h_converge(pa: int, pb: int, pc: int, pd: int, ta: int, tb: int, tc: int, td
                     env.mkdir(ws + "/" + k)
                 else:
                     env.write(ws + "/" + k, TGT[k] if same[k] else OTHER[k])
+            if cube("dangling", False):  # dangling symlinks left by the user: not part of any target
+                env.symlink(ws + "/nowhere", ws + "/lnk")
+                if prior.get("a") == "dir":
+                    env.symlink("../nowhere2", ws + "/a/lnk2")
             for k, kind in target.items():
                 if kind == "file" and not unavail.get(k):
                     env.write(cache.oid_to_path(hashlib.md5(TGT[k]).hexdigest()), TGT[k], mode=0o444)
